@@ -226,3 +226,123 @@ def oracle_c07(c, x):
                     if size != (-off) % a or size == 0:
                         return "padding of %d bytes at offset %d is not the smallest gap for unit %d" % (size, off, a)
     return known
+
+
+def oracle_c15(c, x):
+    if not c.tagc.get(x.cid):
+        return None
+    st = ser_status(c, x)
+    if st.get("status") != "OK":
+        return None
+    line = c.iobs.get((x.cid, "tags"), "")
+    if "TAGROWS-MISMATCH" in line:
+        return "the tags recorded in the schema do not match the tags the type writes: %s" % line[:200]
+    for part in line.split(" "):
+        if not part.startswith("@"):
+            continue
+        pos, codes = part.split(":", 1)
+        for code in codes.split(","):
+            val, res = code.split(">", 1)
+            if res != "E:InvalidTag:%s" % val:
+                return "foreign tag %s at %s gave %s instead of InvalidTag(%s)" % (val, pos, res[:120], val)
+    # every written tag maps back to its variant (both modes)
+    exp = canon_of(c.U, x.t, x.v)
+    f = c.iobs.get((x.cid, "full"), "")
+    if tinfo(c, x).get("exh") != "1" and not f.startswith("OK " + exp + " "):
+        return "the written variant was not read back by full-copy deserialization"
+    e = c.iobs.get((x.cid, "eps:0"), "")
+    if e.startswith("OK") and not erase_refs(e).startswith("OK " + exp + " "):
+        return "the written variant was not read back by eps-copy deserialization"
+    return None
+
+
+def expected_flip(i, data, body_code):
+    """the outcome C10 requires for flipping bit i of a valid stream [data]"""
+    b = bytearray(data)
+    b[i // 8] ^= 1 << (i % 8)
+    byte = i // 8
+    if byte < 8:
+        return "E:MagicCookieError:%x" % int.from_bytes(b[0:8], "little")
+    if byte < 10:
+        return "E:MajorVersionMismatch:%x" % int.from_bytes(b[8:10], "little")
+    if byte < 12:
+        m = int.from_bytes(b[10:12], "little")
+        return ("E:MinorVersionMismatch:%x" % m) if m > 1 else body_code
+    if byte == 12:
+        return "E:UsizeSizeMismatch:%x" % b[12]
+    if byte < 21:
+        return "E:WrongTypeHash:%x" % int.from_bytes(b[13:21], "little")
+    return "E:WrongAlignHash:%x" % int.from_bytes(b[21:29], "little")
+
+
+def oracle_c10(c, x):
+    st = ser_status(c, x)
+    if st.get("status") != "OK":
+        return None
+    data = bytes.fromhex(st.get("bytes", ""))
+    line = c.iobs.get((x.cid, "flips"), "")
+    res = dict(p.split("=", 1) for p in line.split(" ") if "=" in p)
+    # what the unaltered stream gives (full // eps when they differ, e.g. an alignment-class type)
+    f = c.iobs.get((x.cid, "full"), "")
+    e = c.iobs.get((x.cid, "eps:0"), "")
+
+    def code(s, erase):
+        if s.startswith("OK "):
+            v = s[3:].split(" pos=")[0]
+            return "OK:" + (erase_refs(v) if erase else v)
+        if s.startswith("ERR "):
+            return "E:" + s[4:]
+        return "P"
+    fc, ec = code(f, False), code(e, True)
+    body = fc if fc == ec else fc + "//" + ec
+    for i in range(29 * 8):
+        want = expected_flip(i, data, body)
+        got = res.get(str(i))
+        if got != want:
+            return "flipping bit %d of header byte %d gave %s, required %s" % (i % 8, i // 8, (got or "nothing")[:120], want[:120])
+    if res.get("rev") != "E:EndiannessError":
+        return "the byte-reversed cookie gave %s, required EndiannessError" % res.get("rev")
+    for m in (0, 1):
+        if res.get("minor%d" % m) != body:
+            return "minor version %d was not accepted with the same value: %s" % (m, (res.get("minor%d" % m) or "")[:120])
+    for m in (2, 255, 256, 65535):
+        if res.get("minor%d" % m) != "E:MinorVersionMismatch:%x" % m:
+            return "minor version %d gave %s" % (m, (res.get("minor%d" % m) or "")[:120])
+    return None
+
+
+def parse_rle(s):
+    out = []
+    for p in s.split(" "):
+        if "*" in p:
+            code, n = p.rsplit("*", 1)
+            out.append((code, int(n)))
+    return out
+
+
+def oracle_c11(c, x):
+    st = ser_status(c, x)
+    if st.get("status") != "OK":
+        return None
+    line = c.iobs.get((x.cid, "cuts"), "")
+    m = re.match(r"full=(.*) eps=(.*)$", line)
+    if not m:
+        return "no truncation observation"
+    n = int(st["n"], 16)
+    k = 0
+    for code, cnt in parse_rle(m.group(1)):
+        if code != "ReadError":
+            return "full-copy deserialization of the prefix of length %d (of %d) gave %s, required ReadError" % (k, n, code)
+        k += cnt
+    if k != n:
+        return "truncation observation covers %d cut points, expected %d" % (k, n)
+    k = 0
+    whole_ok = c.iobs.get((x.cid, "eps:0"), "").startswith("OK")
+    for code, cnt in parse_rle(m.group(2)):
+        if code == "OK":
+            return "eps-copy deserialization of the prefix of length %d (of %d) produced a value" % (k, n)
+        # when the whole stream deserializes at this address a prefix can only fail for lack of input
+        if whole_ok and code not in ("ReadError", "P"):
+            return "eps-copy deserialization of the prefix of length %d (of %d) gave %s, required ReadError or a bounds-check panic" % (k, n, code)
+        k += cnt
+    return None
